@@ -240,6 +240,16 @@ def o_C05(tr: Trace, h: str = "D") -> Fails:
                         cands = [ref]
                     else:
                         cands = [ref, written]
+                elif step == "SENDING_EOF_ACK_PDU" and e.exc is None and after.deferred and not before.deferred:
+                    # the ACK (EOF) was retrieved and data is missing: this call starts the deferred procedure and
+                    # moves on to the missing-data step, which takes the File Data PDU passed with it
+                    attempt = (written, True)
+                    if pmax == 0:
+                        cands = [written]
+                    elif pmin > 0:
+                        cands = [ref]
+                    else:
+                        cands = [ref, written]
                 elif step in FD_STEPS or step == "SENDING_EOF_ACK_PDU":
                     attempt = (written, False)
                     cands = [ref, written]             # ambiguous: either is consistent with the property
@@ -432,6 +442,10 @@ def o_C07(tr: Trace, c: Cfg, h: str = "S") -> Fails:
         i += 1
         if not (e.op == "put" and e.st.ret == "true"):
             continue
+        if not c.metadata_only:
+            # the source file as it is when the request is made (the user may rewrite it between transactions)
+            F = e.fs_before.get(c.src_path, b"") or b""
+            n = len(F)
         # collect (call index, pdu) until the handler is idle again or the next put
         pdus: list[tuple[int, str, Ev]] = []
         call = 0
@@ -531,6 +545,56 @@ def expected_retransmission(c: Cfg, F: bytes, reqs, seg: int):
             out.append(("fd", o, F[o:o + l]))
             o += l
     return out
+
+
+# ============================================================================ C09 (EOF clause)
+def o_C09_eof(tr: Trace, h: str = "S") -> Fails:
+    """every EOF PDU the source emits — the first one, an EOF (cancel), and every one re-sent by the positive
+    ACK procedure — carries the checksum (negotiated type) of the bytes it has sent: the prefix of the source
+    file whose length is the EOF's own file size field.  The reference content is the source file as the
+    session's filestore view has it when the PDU is retrieved (`file` lines between transactions count)."""
+    f = Fails()
+    cks_t = int(tr.remote[h]["cks"])
+    src: str | None = None          # source path of the running put request (None: metadata only)
+    active = False
+    unstable = False                # the source file was rewritten while the transaction ran
+    sent_end: int | None = None     # end of the File Data sent so far (bytes sent)
+    for e in tr.ev:
+        if e.op in ("file", "rm") and active:
+            t = e.line.split()
+            if len(t) > 2 and t[1] == h and t[2] == src:
+                unstable = True
+            continue
+        if e.h != h:
+            continue
+        if e.op == "put" and e.st.ret == "true":
+            q = dict(x.split("=", 1) for x in e.line.split()[2:] if "=" in x)
+            src = None if q.get("src", "-") == "-" else q["src"]
+            active, unstable, sent_end = True, False, 0
+            continue
+        if e.op != "get" or e.pdu is None or not active:
+            continue
+        k = pdu_kind(e.pdu)
+        if k == "fd" and sent_end is not None:
+            q = pdu_fields(e.pdu)
+            n = 0 if q["data"] == "-" else len(q["data"]) // 2
+            sent_end = max(sent_end, int(q["off"]) + n)
+        if k != "eof":
+            continue
+        q = pdu_fields(e.pdu)
+        size = int(q["size"])
+        if src is None:
+            want = bytes(4)
+        else:
+            F = e.fs_before.get(src)
+            if F is None or unstable or size > len(F):
+                continue
+            want = ref_checksum(cks_t, F[:size]) if cks_t in (0, 2, 3, 15) else None
+        if want is not None and q["cks"] != want.hex():
+            f.add("C09:eof-checksum-not-of-the-bytes-sent",
+                  {"pdu": e.pdu[:200], "size_field": size, "bytes_sent": sent_end,
+                   "checksum_of_prefix": want.hex(), "cond": q["cond"]}, e.idx)
+    return f
 
 
 def o_C08(tr: Trace, c: Cfg, h: str = "S") -> Fails:
@@ -1079,10 +1143,11 @@ def o_seglen(tr: Trace, c: Cfg, h: str = "S") -> Fails:
     """C19/C07: the effective segment length is min(configured maximum, what max_packet_len allows):
     an undisturbed transfer of a file longer than that length has a first File Data PDU of exactly it"""
     f = Fails()
-    F = src_file(tr, c)
     first = next((e for e in tr.emitted(h) if pdu_kind(e.pdu) == "fd"), None)
     if first is None:
         return f
+    # the source file as it is when the PDU is retrieved (the user may rewrite it between transactions)
+    F = b"" if c.metadata_only else first.fs_before.get(c.src_path, b"") or b""
     q = pdu_fields(first.pdu)
     l = len(q["data"]) // 2 if q["data"] != "-" else 0
     if int(q["off"]) == 0 and l != min(c.seg_len, len(F)):
